@@ -251,9 +251,20 @@ func runC12(r *Run, stratum string) *Violation {
 	}
 	var data []byte
 	ends := make([]int, len(items))
-	for i, it := range items {
-		data = append(data, it.raw...)
+	// some streams carry bare line feeds in front of commands (the keep-alive byte a master sends while it has nothing
+	// else to say; the decoder skips it): consumed bytes like any other, so every reported offset counts them
+	lfs := g.Choose("barelf", 6) == 0
+	for i := range items {
+		if lfs {
+			if k := g.Choose("nlf", 4); k > 0 {
+				items[i].raw = append([]byte(strings.Repeat("\n", k)), items[i].raw...)
+			}
+		}
+		data = append(data, items[i].raw...)
 		ends[i] = len(data)
+	}
+	if lfs {
+		simrt.Probe("c12_bare_line_feeds")
 	}
 	bufSize := c12BufSize(g)
 	r.Logf("C12 %s items=%d bytes=%d buf=%d", stratum, len(items), len(data), bufSize)
